@@ -170,6 +170,46 @@ def meek_rules(rep, prog):
     rep.check("ORIENT.candidates", oki, fwhere(f), "only undirected edges are candidates for orientation", "candidates are not undirected_edges(P)")
 
 
+def meek_definitions(rep, prog):
+    """rule_1 and rule_2 as set predicates, decided by exhaustive Venn-region truth tables against their definitions
+    (Meek 1995, restated in the source comments): rule_1(i, j): some parent of i is not adjacent to j;
+    rule_2(i, j): some child of i is a parent of j."""
+    from ..setpred import SetAlg
+    I_, J_, A_ = ("param", "i"), ("param", "j"), ("param", "A")
+
+    def c(name, node):
+        return ("call", U + name, (node, A_), (("A", A_), ("i", node)))
+    specs = {
+        "rule_1": ([c("pa", I_), c("adj", J_)], lambda alg, w: alg.nonempty(("binop", "-", c("pa", I_), c("adj", J_)), w),
+                   "pa(i) - adj(j) is non-empty"),
+        "rule_2": ([c("ch", I_), c("pa", J_)], lambda alg, w: alg.nonempty(("binop", "&", c("ch", I_), c("pa", J_)), w),
+                   "ch(i) & pa(j) is non-empty"),
+    }
+    for name, (atoms_, spec, text) in specs.items():
+        f = need(prog, U + name)
+        S = Sym(prog)
+        summ, _ = run_function(S, f)
+        rets = S.select("return", qname=f.qname)
+        alg = SetAlg(atoms_)
+
+        def code(w, rets=rets, alg=alg):
+            # the function returns True on the first return whose path holds and whose value is true
+            for r in rets:
+                if all(alg.truth(cnd, w) == pol for cnd, pol in r.path):
+                    return alg.truth(r.value, w)
+            return False
+        try:
+            used = {x for r in rets for t_ in [r.value] + [cnd for cnd, _ in r.path] for x in walk(t_)
+                    if isinstance(x, tuple) and x and x[0] == "call" and x[1].startswith(U)}
+            if not used <= set(atoms_):
+                raise Inconclusive("uses other set atoms than %s" % [fmt(a) for a in atoms_])
+            ok, wit = alg.equal(code, lambda w: spec(alg, w))
+            rep.check("RULES." + name, ok, fwhere(f), "%s(i, j, A) <=> %s, in all %d worlds of the two sets" % (name, text, 2 ** len(alg.regions)),
+                      "%s deviates from its definition (%s): %s" % (name, text, wit))
+        except Inconclusive as e:
+            rep.unk("RULES." + name, fwhere(f), "%s is not a set predicate over %s: %s" % (name, [fmt(a) for a in atoms_], e.why))
+
+
 def pdag_rules(rep, prog):
     q = U + "pdag_to_icpdag"
     f = need(prog, q)
@@ -195,6 +235,7 @@ def run(prog, rep, tier):
     chain_rules(rep, prog)
     icpdag_rules(rep, prog)
     meek_rules(rep, prog)
+    meek_definitions(rep, prog)
     pdag_rules(rep, prog)
     rep.require_count("ORIENT", 5)
     rep.require_count("GUARD", 3)
